@@ -40,6 +40,25 @@ class TraceLock:
         self.release()
 
 
+class LogSLock(util.SLock):
+    """Scheduler-aware lock that also records when a thread enters / leaves its outermost locked region."""
+
+    def __init__(self, sched, reentrant, alog):
+        super().__init__(sched, reentrant=reentrant)
+        self.alog = alog
+
+    def acquire(self, *a, **k):
+        r = super().acquire(*a, **k)
+        if self.count == 1:
+            self.alog.append(("lock", self.owner))
+        return r
+
+    def release(self):
+        if self.count == 1:
+            self.alog.append(("unlock", self.owner))
+        super().release()
+
+
 def trace_is_path(facts, method, evs):
     """Is the observed acquire/release sequence one of the finite paths of the extracted shape of `method`?
     (python mirror of Operon.Lysosome.Path: calls taken or skipped, callback points run table methods 0..n times)"""
@@ -89,7 +108,7 @@ class C13(Prop):
     thorough_budget = 40000
     quick_deadline_s = 100
     thorough_deadline_s = 800
-    all_branches = ["ingest:plain", "ingest:emergency", "ingest:emergency-dropped", "ingest:capacity-noop",
+    all_branches = ["conc:linearised", "ingest:plain", "ingest:emergency", "ingest:emergency-dropped", "ingest:capacity-noop",
                     "ingest:auto", "ingest:auto-all", "ingest:auto-error-logged", "digest:none", "digest:zero",
                     "digest:pos", "digest:neg", "digest:errors", "digest:empty", "autophagy:some", "autophagy:none"]
     assumptions = [
@@ -129,6 +148,7 @@ class C13(Prop):
                 raise Infra(f"retention {us} is not exact as float hours")
         self.hangs_seen = 0
         self.file = L.__file__
+        self.facts = e3_lysosome.extract(REPO)[1]
 
     def extract(self, ctx):
         text, facts = e3_lysosome.extract(REPO)
@@ -175,6 +195,9 @@ class C13(Prop):
 
     def _conc(self, rng):
         cfg, (mq, at, ret) = self._cfg(rng)
+        if rng.random() < 0.7:       # configurations whose every digester call is visible: the recorded order of
+            t = cfg.split()          # atomic actions is then replayed on the model of the concurrent semantics
+            cfg = " ".join(t[:4] + ["ssss", t[5], "set"])
         lines = [cfg]
         nid = 0
         for _ in range(rng.choice([0, 0, 1, 2, 3])):
@@ -254,7 +277,13 @@ class C13(Prop):
                 c = c["context"]
             return c
 
+        def note_digester_call():
+            if ctx.get("alog") is not None:
+                tid = ctx["sched"].me()
+                ctx["alog"].append(("dig", tid, ctx["slock"].owner == tid and ctx["slock"].count > 0))
+
         def scripted(w):
+            note_digester_call()
             c = code(w)
             k = c["c"] % 4
             if k == 0:
@@ -275,6 +304,7 @@ class C13(Prop):
             digesters[order[4]] = scripted
 
         def on_toxic(w):
+            note_digester_call()
             c = code(w)
             ctx["toxlog"].append(c["seq"])
             if c["c"] == 0:
@@ -322,6 +352,7 @@ class C13(Prop):
             w = L.Waste(waste_type=ctx["order"][TYPES.index(ty)], content=self._content(ctx, ty, i, c),
                         created_at=self.clock.now())
             w.vf = (ctx["seq"], i)
+            ctx.setdefault("ids", {})[ctx["seq"]] = i
             ctx["types"][ctx["seq"]] = ty
             ctx["seq"] += 1
             lys.ingest(w)
@@ -329,6 +360,7 @@ class C13(Prop):
         if op == "ingest_error":
             i, c = int(t[1]), int(t[2])
             ctx["types"][ctx["seq"]] = "fop"
+            ctx.setdefault("ids", {})[ctx["seq"]] = i
             seq = ctx["seq"]
             ctx["seq"] += 1
             lys.ingest_error(type(f"E{c}", (Exception,), {})("boom"), source="h", context={"c": c, "seq": seq, "id": i})
@@ -336,6 +368,7 @@ class C13(Prop):
         if op == "ingest_sensitive":
             i, c = int(t[1]), int(t[2])
             ctx["types"][ctx["seq"]] = "tox"
+            ctx.setdefault("ids", {})[ctx["seq"]] = i
             seq = ctx["seq"]
             ctx["seq"] += 1
             lys.ingest_sensitive({"c": c, "seq": seq, "id": i}, source="h")
@@ -428,15 +461,22 @@ class C13(Prop):
             t = line.split()
             snap = None
             try:
-                if t[0] == "cfg" and len(t) == 7:
+                if t[0] == "cfg" and len(t) in (7, 8):
+                    # the model's lock flag is the lock kind E3 extracts from the source under test
+                    case["lines"][case["lines"].index(line)] = " ".join(t[:7] + [self.facts["kind"]])
                     ctx = self._mk(t)
                     self.clock.us = 0
                     del self.records[:]
                     obs.append("ok")
                 elif ctx is None:
                     obs.append("bad-op")
-                elif t[0] == "conc" and len(t) == 4:
+                elif t[0] == "conc" and (len(t) == 4 or (len(t) >= 5 and t[4] == "@")):
                     o, snap = self._conc_run(ctx, t)
+                    # environment recording: hand the observed order of atomic actions to the model
+                    k = case["lines"].index(line)
+                    base = " ".join(t[:4])
+                    case["lines"][k] = base + (" @ " + " ".join(snap["acts"]) if snap and snap.get("acts") is not None
+                                               else "")
                     obs.append(o)
                 elif ctx["dead"]:
                     obs.append("dead" if self._wellformed(t) else "bad-op")
@@ -503,15 +543,19 @@ class C13(Prop):
         sched = util.Sched(util.burst_schedule(rng, 2, 600), [self.file])
         reentrant = ctx["reentrant"]
         real = lys._lock
-        lys._lock = util.SLock(sched, reentrant=reentrant)
-        before = {"ing_calls": ctx["seq"]}
+        alog = []
+        ctx["alog"], ctx["sched"] = alog, sched
+        ctx["slock"] = lys._lock = LogSLock(sched, reentrant, alog)
+        ids0 = dict(ctx.get("ids", {}))
 
-        def body(prog):
+        def body(tid, prog):
             def f():
                 for op in prog:
+                    alog.append(("call", tid, op))
                     self._do(ctx, op)
             return f
-        finished = sched.run([body(p) for p in progs], join_timeout=4)
+        finished = sched.run([body(i, p) for i, p in enumerate(progs)], join_timeout=4)
+        ctx["alog"] = None
         dead = (not finished) or sched.deadlock or any(r is None or r[0] != "ok" for r in sched.results)
         snap = {"conc": True, "finished": finished, "deadlock": sched.deadlock,
                 "results": [None if r is None else (r[0] if r[0] != "raise" else f"raise:{type(r[1]).__name__}")
@@ -526,7 +570,34 @@ class C13(Prop):
         d, s2 = self._dump(ctx)
         snap.update(s2)
         snap["types"] = dict(ctx["types"])
-        return "conc", snap
+        # the order in which the atomic actions really happened, for the model of the concurrent semantics
+        qualifies = ctx["modes"] == "ssss" and (ctx["ontox"] == "set" or ctx["tox"] == "s")
+        if not qualifies:
+            return "conc", snap
+        acts, cur = [], {}
+        for ev in alog:
+            if ev[0] == "call":
+                cur[ev[1]] = ev[2]
+            elif ev[0] == "lock":
+                op = cur[ev[1]]
+                if op[0] == "ingest":
+                    acts.append(f"I,{op[1]},{op[2]},{op[3]}")
+                elif op[0] == "digest":
+                    acts.append(f"P,{ev[1]},{op[1]}")
+                elif op[0] == "autophagy":
+                    acts.append("A")
+            elif ev[0] == "dig" and not ev[2]:
+                acts.append(f"T,{ev[1]}")
+        snap["acts"] = acts
+        st = ctx["lys"].get_statistics()
+        ids = ctx.get("ids", {})
+        line = " ".join([
+            "q=[" + ",".join(str(self._id_of(w)) for w in ctx["lys"]._queue) + "]",
+            f"ing={st['total_ingested']}", f"dig={st['total_digested']}", f"rec={st['total_recycled']}",
+            "keys=[" + ",".join(str(k) for k, _ in s2["bin"]) + "]",
+            "tox=[" + ",".join(str(i) for i in sorted(ids[q] for q in ctx["toxlog"])) + "]",
+            f"rep={s2['rep']}", f"auto={s2['auto']}", f"em={s2['em']}", f"exp={s2['exp']}", "pend=0"])
+        return "conc | " + line, snap
 
     # --- oracle: the property text, evaluated on what the real code did ------------------------------------------
     def oracle(self, case, obs, extra):
